@@ -199,11 +199,14 @@ def mutants(ids, kind="mutants", with_tests=False, par=4):
         ms = [m for m in ms if m["id"] in ids]
     fails = 0
     t0 = time.time()
+    rows = []
     with cf.ThreadPoolExecutor(max_workers=par) as ex:
         for mid, tests_ok, res in ex.map(lambda m: _one_mutant(m, with_tests), ms):
             for prop_id, (rc, classes, out) in res.items():
                 want = 0 if kind == "neutral" else 1
                 ok = rc == want
+                rows.append({"id": mid, "check": prop_id, "exit": rc, "expected_exit": want, "classes": classes[:6],
+                             "pinned_suite_passes": tests_ok})
                 if not ok:
                     fails += 1
                 print("%-7s %-8s %-4s exit=%d %s %s%s" % (kind, mid, prop_id, rc, "ok " if ok else "FAIL",
@@ -214,6 +217,12 @@ def mutants(ids, kind="mutants", with_tests=False, par=4):
                 if kind == "neutral" and not ok:
                     print(out[-1200:])
     print("%s: %d entries, %d failures, %.0fs" % (kind, len(ms), fails, time.time() - t0))
+    try:
+        os.makedirs(os.path.join(VERIF, "out"), exist_ok=True)
+        json.dump({"kind": kind, "entries": len(ms), "failures": fails, "rows": rows},
+                  open(os.path.join(VERIF, "out", "selftest_%s.json" % kind), "w"), indent=0)
+    except OSError:
+        pass
     return 1 if fails else 0
 
 
